@@ -1,6 +1,11 @@
 // vh-find: implementation side of the correspondence check for property C17 (file.Find).
 //
-// case:  L <k0k1…kn> S <i> T <stop>     (see lean/Spok/Oracle/Find.lean)
+// case:  L <k0k1…kn> S <i> T <stop> [LN <j>] [REL <i0>]    (see lean/Spok/Oracle/Find.lean)
+//
+//	LN <j>:  level j of the chain is a SYMBOLIC LINK to a directory kept elsewhere (deeper levels live below that
+//	         directory): the search climbs the path it was given, component by component, whatever the components are;
+//	REL <i0>: the working directory is level i0 (≤ i) and start is given RELATIVE to it (".", "d", "d/d", …): the climb
+//	         of a relative path ends at "." — judged for termination and for the nearest spokfile between the two.
 //
 //	level j of the chain B/c, B/c/d, B/c/d/d, … is described by one hex digit k = 4·s + o:
 //	s = 0 no spokfile | 1 regular file "spokfile" | 2 directory "spokfile";
@@ -113,8 +118,23 @@ func populate(dir string, k int) error {
 
 func findWork(c string) string {
 	f := strings.Fields(c)
-	if len(f) != 6 || f[0] != "L" || f[2] != "S" || f[4] != "T" {
+	if len(f) < 6 || len(f)%2 != 0 || f[0] != "L" || f[2] != "S" || f[4] != "T" {
 		return "BAD-CASE"
+	}
+	linkAt, relFrom := -1, -1
+	for i := 6; i+1 < len(f); i += 2 {
+		v, err := strconv.Atoi(f[i+1])
+		if err != nil || v < 0 {
+			return "BAD-CASE"
+		}
+		switch f[i] {
+		case "LN":
+			linkAt = v
+		case "REL":
+			relFrom = v
+		default:
+			return "BAD-CASE"
+		}
 	}
 	var ks []int
 	for i := 0; i < len(f[1]); i++ {
@@ -132,11 +152,14 @@ func findWork(c string) string {
 	seq++
 	// B must hold nothing but the chain (and `u`): the chain root is always called "c"
 	root := filepath.Join(b, "c")
+	ext := filepath.Join(b, "ext")
 	_ = os.RemoveAll(root)
 	_ = os.RemoveAll(filepath.Join(b, "u"))
+	_ = os.RemoveAll(ext)
 	defer func() {
 		_ = os.RemoveAll(root)
 		_ = os.RemoveAll(filepath.Join(b, "u"))
+		_ = os.RemoveAll(ext)
 	}()
 	dirs := []string{root}
 	for i := 1; i < len(ks); i++ {
@@ -173,7 +196,38 @@ func findWork(c string) string {
 		return "BAD-CASE"
 	}
 
-	return "RES " + callFind(dirs, dirs[si], stop)
+	if linkAt >= 0 {
+		if linkAt >= len(ks) {
+			return "BAD-CASE"
+		}
+		// level linkAt (with everything below it) moves elsewhere; a symbolic link takes its place
+		if err := os.Rename(dirs[linkAt], ext); err != nil {
+			return "BAD-SETUP " + sup.Hx(err.Error())
+		}
+		if err := os.Symlink(ext, dirs[linkAt]); err != nil {
+			return "BAD-SETUP " + sup.Hx(err.Error())
+		}
+	}
+	start := dirs[si]
+	if relFrom >= 0 {
+		if relFrom > si {
+			return "BAD-CASE"
+		}
+		wd, err := os.Getwd()
+		if err != nil {
+			return "BAD-SETUP " + sup.Hx(err.Error())
+		}
+		if err := os.Chdir(dirs[relFrom]); err != nil {
+			return "BAD-SETUP " + sup.Hx(err.Error())
+		}
+		defer os.Chdir(wd)
+		start = "."
+		if si > relFrom {
+			start = strings.TrimSuffix(strings.Repeat("d/", si-relFrom), "/")
+		}
+	}
+
+	return "RES " + callFind(dirs, start, stop)
 }
 
 func callFind(dirs []string, start, stop string) (out string) {
@@ -255,6 +309,46 @@ func findGen(w *bufio.Writer, args map[string]string) {
 		genChains(w, 4, all) // 12^4 chains x 4 starts x 9 stops
 	} else {
 		genChains(w, 4, eight)
+	}
+	// chains of 3 levels over the eight kinds again, (a) with each level in turn a symbolic link, (b) with every working
+	// directory at or above start and start given relative to it
+	genVariants(w, 3, eight)
+}
+
+func genVariants(w *bufio.Writer, n int, kinds []int) {
+	idx := make([]int, n)
+	for {
+		var sb strings.Builder
+		for _, i := range idx {
+			sb.WriteByte(hexd[kinds[i]])
+		}
+		ks := sb.String()
+		for s := 0; s < n; s++ {
+			stops := []string{"ROOT"}
+			for j := 0; j < n; j++ {
+				stops = append(stops, fmt.Sprintf("L%d", j), fmt.Sprintf("U%d", j))
+			}
+			for _, st := range stops {
+				for ln := 0; ln < n; ln++ {
+					fmt.Fprintf(w, "L %s S %d T %s LN %d\n", ks, s, st, ln)
+				}
+				for i0 := 0; i0 <= s; i0++ {
+					fmt.Fprintf(w, "L %s S %d T %s REL %d\n", ks, s, st, i0)
+				}
+			}
+		}
+		p := n - 1
+		for p >= 0 {
+			idx[p]++
+			if idx[p] < len(kinds) {
+				break
+			}
+			idx[p] = 0
+			p--
+		}
+		if p < 0 {
+			return
+		}
 	}
 }
 
